@@ -95,6 +95,45 @@ def run(ctx):
             vals = sorted(gen._round(rng.uniform(0.6, 8.0), 4) for _ in range(4))
             jobs.append({'fn': 'gxv.jobs:multi_run', 'args': {'texts': chain_texts(base, 'Reservoir Depth', vals)}, 'timeout': 300,
                          'meta': {'clause': 'bht-depth', 'name': 'Reservoir Depth', 'values': vals, 'cell': list(cell), 'nseg': nseg}})
+    # (a') directed: layered profiles in which the maximum-temperature cap is active below the first layer (the region where
+    # the capped depth depends on several layers' gradients and thicknesses at once)
+    for i in range(ctx.pick(40, 300)):
+        cell = heat_cells[i % len(heat_cells)]
+        nseg = rng.choice([2, 2, 3, 4])
+        base = gen.synth_case(rng, cell, costs=False, incentives=False, prices=False, addons=False, overpressure=False, nseg=nseg, sdac=False)
+        g = [gen._round(rng.uniform(20, 90), 3) for _ in range(nseg)]
+        h = [gen._round(rng.uniform(0.4, 1.8), 3) for _ in range(nseg - 1)]
+        tsurf = gen._round(rng.uniform(0, 25), 2)
+        bounds = [tsurf]
+        for k in range(nseg - 1):
+            bounds.append(bounds[-1] + g[k] * h[k])
+        j = rng.randint(2, nseg)                            # the layer (1-based) in which Tmax is to be reached
+        lo_t = bounds[j - 1]
+        hi_t = bounds[j] if j < nseg else bounds[j - 1] + g[j - 1] * 2.0
+        tmax = gen._round(min(600.0, max(50.0, rng.uniform(lo_t + 1.0, max(lo_t + 2.0, hi_t - 1.0)))), 2)
+        depth = gen._round(min(14.5, sum(h) + 2.0 + rng.uniform(0.5, 3.0)), 3)      # well beyond the capped depth
+        for k in range(nseg):
+            gen.cset(base, f'Gradient {k + 1}', g[k])
+            if k < nseg - 1:
+                gen.cset(base, f'Thickness {k + 1}', h[k])
+        gen.cset(base, 'Surface Temperature', tsurf)
+        gen.cset(base, 'Maximum Temperature', tmax)
+        gen.cset(base, 'Reservoir Depth', depth)
+        if rng.random() < 0.75:
+            k = rng.choice([j - 1, j - 1, j, rng.randint(1, nseg)])
+            k = min(max(k, 1), nseg)
+            g0 = g[k - 1]
+            vals = sorted({gen._round(g0 * f, 3) for f in (0.5, 0.8, 1.0, 1.15, 1.4, 2.0)})
+            vals = [v for v in vals if 2.0 < v < 500.0]
+            jobs.append({'fn': 'gxv.jobs:multi_run', 'args': {'texts': chain_texts(base, f'Gradient {k}', vals)}, 'timeout': 300,
+                         'meta': {'clause': 'bht-gradient', 'name': f'Gradient {k}', 'values': vals, 'cell': list(cell), 'nseg': nseg,
+                                  'directed': 'cap-active-below-first-layer'}})
+        else:
+            vals = sorted(gen._round(rng.uniform(0.5, 1.0) * sum(h) + x, 3) for x in (0.0, 0.7, 1.5, 2.5, 4.0))
+            vals = [v for v in vals if 0.1 <= v <= 15.0]
+            jobs.append({'fn': 'gxv.jobs:multi_run', 'args': {'texts': chain_texts(base, 'Reservoir Depth', vals)}, 'timeout': 300,
+                         'meta': {'clause': 'bht-depth', 'name': 'Reservoir Depth', 'values': vals, 'cell': list(cell), 'nseg': nseg,
+                                  'directed': 'cap-active-below-first-layer'}})
     # (b) percentage drawdown rate
     for i in range(ctx.pick(40, 400)):
         cell = heat_cells[i % len(heat_cells)]
